@@ -313,8 +313,23 @@ func (w walkRec) Visit(wk ast.Walker, n ast.Node) ast.Visitor {
 	return w
 }
 
+// limRec records like walkRec but stops descending below a depth (limit < 0: never); combined with others through
+// ast.MultiVisitor each must see what it would have seen alone
+type limRec struct {
+	walkRec
+	limit int
+}
+
+func (w limRec) Visit(wk ast.Walker, n ast.Node) ast.Visitor {
+	w.walkRec.Visit(wk, n)
+	if w.limit >= 0 && len(wk.Ancestors()) >= w.limit {
+		return nil
+	}
+	return limRec{w.walkRec, w.limit}
+}
+
 func parseOne(text []byte) (res map[string]interface{}) {
-	res = map[string]interface{}{"ok": false, "panicked": false, "perrs": []perr{}, "nodes": []pnode{}, "walk": []pwalk{}, "both": false, "neither": false, "plainok": false, "lit": []int{}}
+	res = map[string]interface{}{"mwalk": [][]pwalk{}, "ok": false, "panicked": false, "perrs": []perr{}, "nodes": []pnode{}, "walk": []pwalk{}, "both": false, "neither": false, "plainok": false, "lit": []int{}}
 	defer func() {
 		if r := recover(); r != nil {
 			res["panicked"] = true
@@ -353,6 +368,15 @@ func parseOne(text []byte) (res map[string]interface{}) {
 			wk = []pwalk{}
 		}
 		res["walk"] = wk
+		limits := []int{1, -1, 2, 0}
+		mw := make([][]pwalk, len(limits))
+		var vs []ast.Visitor
+		for i, lim := range limits {
+			mw[i] = []pwalk{}
+			vs = append(vs, limRec{walkRec{info: info, out: &mw[i]}, lim})
+		}
+		ast.Walk(ast.MultiVisitor(vs...), prog)
+		res["mwalk"] = mw
 	}
 	return res
 }
